@@ -112,6 +112,8 @@ def run(ctx: Ctx) -> None:
         d = trees.rand_tree(rng, rng.choice([1, 2, 3, 3, 4, 5]), leaves="TTHRM", names="bbiiivsck", flip_ws=0.2)
         cases.append((d, rng.randrange(0, 5), rng.choice(EOLS)))
 
+    cases = ctx.select("Tag.get_html_string (unrestricted trees)", cases)
+    cases = type(cases)(tuple(c)[:3] for c in cases)
     # flat forms of every inline run, from the extracted specification
     reqs, owner = [], []
     for ci, (d, i, eol) in enumerate(cases):
@@ -182,7 +184,6 @@ def run(ctx: Ctx) -> None:
 
 
 def replay(ctx: Ctx, path: str) -> None:
-    import json
-    with open(path) as f:
-        print(json.dumps(json.load(f), indent=1)[:3000])
+    """re-run the recorded input (the step that reported it runs that single case)"""
+    ctx.load_replay(path)
     run(ctx)
